@@ -781,3 +781,74 @@ pub fn determinism(o: &Opts) -> R<()> {
     println!("{}", json!({"programs": progs.len(), "runs": total_runs, "order_dependent_programs": unstable}));
     Ok(())
 }
+
+// ------------------------------------------------------------------------------------------------
+// The (Packed, Packed) arm of `merge` against PackedMerge.tla
+
+/// `packed-replay`: every pair of span shapes enumerated by `PackedGen.tla` (one unit = 32 bits) is built with fresh
+/// type variables and combined by the real `unification::merge`; the resulting spans, equalities and judgements are
+/// written with small variable numbers for `PackedTrace.tla`.
+pub fn packed_replay(o: &Opts) -> R<()> {
+    let cases = std::fs::read_to_string(o.str("cases")?).map_err(|e| e.to_string())?;
+    let mut w = Ndjson::create(&o.str("out")?)?;
+    w.put(&json!({"ev": "begin"}));
+    let unit = 32usize;
+    let (mut n, mut panics) = (0u64, 0u64);
+    for line in cases.lines().filter(|l| !l.trim().is_empty()) {
+        let c: J = serde_json::from_str(line).map_err(|e| e.to_string())?;
+        let mut state = TypeCheckerState::empty();
+        let parent = unsafe { state.allocate_ty_var() };
+        let mut names: std::collections::HashMap<TypeVariable, usize> = std::collections::HashMap::new();
+        let mut name = |v: TypeVariable, names: &mut std::collections::HashMap<TypeVariable, usize>| -> usize {
+            let k = names.len() + 1;
+            *names.entry(v).or_insert(k)
+        };
+        let mut build = |shape: &J, state: &mut TypeCheckerState, names: &mut std::collections::HashMap<TypeVariable, usize>| -> (TE, Vec<J>) {
+            let mut spans = Vec::new();
+            let mut desc = Vec::new();
+            for iv in shape.as_array().unwrap() {
+                let (a, b) = (iv[0].as_u64().unwrap() as usize, iv[1].as_u64().unwrap() as usize);
+                let v = unsafe { state.allocate_ty_var() };
+                spans.push(Span::new(v, a * unit, (b - a) * unit));
+                desc.push(json!([a * unit, (b - a) * unit, name(v, names)]));
+            }
+            (TE::Packed { types: spans, is_struct: false }, desc)
+        };
+        let (pa, da) = build(&c["a"], &mut state, &mut names);
+        let (pb, db) = build(&c["b"], &mut state, &mut names);
+        // spans in either order of declaration: the encoding is a set
+        let res = guarded(|| unification::merge(pa.clone(), pb.clone(), parent, &mut state));
+        n += 1;
+        let mut rec = json!({"ev": "packed", "a": da, "b": db});
+        match res {
+            Ok(m) => {
+                let spans: Vec<J> = match &m.expression {
+                    TE::Packed { types, .. } => types.iter().map(|s| json!([s.offset, s.size, name(s.typ, &mut names)])).collect(),
+                    _ => vec![],
+                };
+                rec["kind"] = json!(if matches!(m.expression, TE::Packed { .. }) { "packed" } else { "other" });
+                rec["out"] = json!({
+                    "spans": spans,
+                    "eqs": m.equalities.iter().map(|e| json!([name(e.left, &mut names), name(e.right, &mut names)])).collect::<Vec<_>>(),
+                    "judgs": m.judgements.iter().map(|j| {
+                        let sp: Vec<J> = match &j.expr {
+                            TE::Packed { types, .. } => types.iter().map(|s| json!([s.offset, s.size, name(s.typ, &mut names)])).collect(),
+                            _ => vec![json!([-1, -1, -1])],
+                        };
+                        json!({"var": name(j.tv, &mut names), "spans": sp})
+                    }).collect::<Vec<_>>(),
+                });
+            }
+            Err(p) => {
+                panics += 1;
+                rec["kind"] = json!("panic");
+                rec["out"] = json!({"spans": [], "eqs": [], "judgs": []});
+                rec["msg"] = json!(p);
+            }
+        }
+        w.put(&rec);
+    }
+    w.finish();
+    println!("{}", json!({"cases": n, "panics": panics}));
+    Ok(())
+}
